@@ -1,0 +1,45 @@
+// This Source Code Form is subject to the terms of the Mozilla Public
+// License, v. 2.0. If a copy of the MPL was not distributed with this
+// file, You can obtain one at http://mozilla.org/MPL/2.0/.
+
+//go:build !verif
+
+package inmem
+
+import (
+	"github.com/cosi-project/runtime/pkg/resource"
+	"github.com/cosi-project/runtime/pkg/state"
+)
+
+// verifColl is the per-collection state of the trace hooks (empty unless built with -tags verif).
+type verifColl struct{}
+
+func (collection *ResourceCollection) verifNew() {}
+
+func (collection *ResourceCollection) verifOp(string, string, resource.ID, *resource.Metadata, resource.Resource, string, *resource.Phase) {
+}
+
+func (collection *ResourceCollection) verifInject(resource.Resource) {}
+
+func (collection *ResourceCollection) verifPublish(*state.Event) {}
+
+func (collection *ResourceCollection) verifWatchStart(string, resource.ID, int, state.Bookmark, bool, bool, int64, *state.Event, []resource.Resource, func(resource.Resource) bool) int64 {
+	return 0
+}
+
+func (collection *ResourceCollection) verifWatchReject(string, resource.ID, state.Bookmark) {}
+
+func (collection *ResourceCollection) verifRead(int64, int64, bool, bool) {}
+
+func (collection *ResourceCollection) verifReadAll(int64, int64, []state.Event, func(resource.Resource) bool) {
+}
+
+func (collection *ResourceCollection) verifSend(int64, *state.Event) {}
+
+func (collection *ResourceCollection) verifSendBatch(int64, []state.Event) {}
+
+func (collection *ResourceCollection) verifSendBoot(int64, resource.Resource) {}
+
+func (collection *ResourceCollection) verifSendMark(int64, state.EventType, int64) {}
+
+func (collection *ResourceCollection) verifSendErrored(int64) {}
